@@ -16,6 +16,7 @@ import Juniper.Driver.C07
 import Juniper.Driver.C13
 import Juniper.Driver.C14
 import Juniper.Driver.C03Slots
+import Juniper.Driver.TreeAccess
 /-! `driver <model>`: runs one executable model behind the line protocol. Core-only (no Mathlib).
 Registration: one `import` line above and one `[("name", handler)],` line below per model
 (this file is merged with git's union driver, so keep one entry per line). -/
@@ -40,6 +41,7 @@ def handlers : List (String × Handler) := List.flatten [
   [("parstream", Juniper.Driver.C14.S.handler)],
   [("pariter", Juniper.Driver.C14.I.handler)],
   [("treeslots", Juniper.Driver.C03Slots.handler)],
+  [("treeacc", Juniper.Driver.TreeAccess.handler)],
   []]
 
 def main (args : List String) : IO UInt32 := do
